@@ -441,7 +441,8 @@ Qed.
 
 Lemma canon_in s set a : In a (canon s set) -> In a set.
 Proof.
-  unfold canon. intros H. apply in_flat_map in H. destruct H as (f & _ & H).
+  unfold canon. intros H. apply in_app_or in H. destruct H as [H|H]; [|apply filter_In in H; tauto].
+  apply in_flat_map in H. destruct H as (f & _ & H).
   match type of H with In _ (match ?x with _ => _ end) => destruct x as [b|] eqn:E end; [|contradiction].
   destruct H as [<-|[]]. apply find_some in E. tauto.
 Qed.
